@@ -4,7 +4,7 @@
    operators), tied to cylc/flow/dbstatecheck.py and to the sqlite3 library by
    the two correspondence streams of vp/props/c40.py.
 
-   [code_query]  = what the code computes ('*' -> '%', SQL LIKE when the pattern
+   [code_query]  = what the code computes (SQL GLOB on the escaped pattern when it
                    has a '*', == otherwise, status / output selector, flow filter)
    [spec_query]  = what the property text says ('*' any sequence, every other
                    character only itself, case-sensitively).
@@ -15,13 +15,34 @@ From Cylc Require Import Base.Util Model.LikeGlob Proofs.LikeGlobProofs.
 Import ListNotations.
 Open Scope Z_scope.
 
-(* The property as stated: for every table and query the code returns exactly
-   the recorded instances that match.  It is FALSE of the code as it is
-   (see c40_query_exact_refuted) and therefore only a Definition. *)
-Definition c40_query_exact : Prop :=
-  forall q rows, code_query q rows = spec_query q rows.
+(* The property, in full: for every table and every query whose task / cycle
+   pattern is not the empty string (an empty string is the caller's "not given":
+   `if task:`), the code returns exactly the recorded instances that match, where
+   '*' matches any sequence and every other character only itself, case
+   sensitively.  No restriction on '_', '%', case or any other character.
+   (Proved since fix 5844984: GLOB on the escaped pattern.) *)
+Theorem c40_query_exact : forall q rows,
+  pat_nonempty (q_task q) -> pat_nonempty (q_cycle q) ->
+  code_query q rows = spec_query q rows.
+Proof. exact query_exact. Qed.
 
-(* "a_b*"  "axb"  "A_B1"  "a_b1" *)
+(* At the level of one name: SQLite GLOB on the pattern with '?' and '[' wrapped
+   as one-character sets is exact matching for every pattern and name (this also
+   shows the GLOB tokenizer never runs out of fuel on escaped patterns); and a
+   pattern without '*' (compared with ==) matches only itself. *)
+Theorem c40_fixed_glob_exact : forall p s,
+  sqlite_glob (glob_escape p) s = spec_glob p s.
+Proof. exact glob_escape_exact. Qed.
+
+Theorem c40_no_star_exact : forall p s,
+  has_star p = false -> (spec_glob p s = true <-> p = s).
+Proof. intros p s H. rewrite spec_glob_nostar by exact H. apply str_eqb_eq. Qed.
+
+(* ---- regression facts about the PRE-FIX code (LIKE after '*' -> '%') ----
+   [legacy_code_query] is the query as it was before 5844984.  These two
+   theorems document the defect that was fixed and why the witnesses stay in
+   the corpus; they say nothing about the current code.
+   "a_b*"  "axb"  "A_B1"  "a_b1" *)
 Definition w_pat : str := [97; 95; 98; 42].
 Definition w_axb : str := [97; 120; 98].
 Definition w_A_B1 : str := [65; 95; 66; 49].
@@ -34,38 +55,18 @@ Definition w_query : query :=
      q_trigger := false; q_message := false; q_flow := None |}.
 Definition w_rows := [w_row w_axb; w_row w_A_B1; w_row w_a_b1].
 
-(* Refutation witness (the finding): querying task "a_b*" returns the recorded
-   tasks "axb" ('_' acts as a wildcard) and "A_B1" (case ignored) as well as
-   "a_b1"; exact matching returns only "a_b1". *)
-Theorem c40_query_exact_refuted :
-  code_query w_query w_rows = Some [0; 1; 2]%nat /\
+(* pre-fix: task "a_b*" returned "axb" ('_' as wildcard) and "A_B1" (case
+   ignored) as well as "a_b1"; the current code returns only "a_b1". *)
+Theorem c40_legacy_like_was_inexact :
+  legacy_code_query w_query w_rows = Some [0; 1; 2]%nat /\
   spec_query w_query w_rows = Some [2]%nat /\
-  ~ c40_query_exact.
-Proof.
-  split; [vm_compute; reflexivity|]. split; [vm_compute; reflexivity|].
-  intros H. specialize (H w_query w_rows). vm_compute in H. discriminate.
-Qed.
+  code_query w_query w_rows = Some [2]%nat.
+Proof. repeat split; vm_compute; reflexivity. Qed.
 
-(* The restricted statement that does hold: if every task / cycle pattern that
-   contains '*' has no '_' and no '%', and none of its characters equals a
-   character of a recorded name only up to ASCII case (hypothesis [pat_safe],
-   which also excludes the empty pattern), then the code returns exactly the
-   matching recorded instances.  Patterns without '*' are always exact. *)
-Theorem c40_query_exact_restricted : forall q rows,
-  pat_safe (q_task q) (map r_name rows) ->
-  pat_safe (q_cycle q) (map r_cycle rows) ->
-  code_query q rows = spec_query q rows.
-Proof. exact query_exact_restricted. Qed.
-
-(* At the level of one name: LIKE on the translated pattern = exact glob
-   matching on safe patterns; == is exact matching when there is no '*'. *)
-Theorem c40_like_exact_when_safe : forall p s,
+(* pre-fix: LIKE on the translated pattern was exact only on "safe" patterns *)
+Theorem c40_legacy_like_exact_when_safe : forall p s,
   safe p s -> sqlite_like (translate p) s = spec_glob p s.
 Proof. exact like_translate_spec. Qed.
-
-Theorem c40_no_star_exact : forall p s,
-  has_star p = false -> (spec_glob p s = true <-> p = s).
-Proof. intros p s H. rewrite spec_glob_nostar by exact H. apply str_eqb_eq. Qed.
 
 (* The answer contains each recorded instance at most once, and instance i is
    in it exactly when row i passes the code's row filter. *)
@@ -92,34 +93,18 @@ Theorem c40_selector_in_outputs : forall x outs,
   In x outs \/ ((x = s_finished \/ x = s_finish) /\ (In s_succeeded outs \/ In s_failed outs)).
 Proof. exact selector_in_outputs_spec. Qed.
 
-(* About the proposed fix (proposed_fixes/C40-glob-escape.diff): SQLite GLOB on
-   the pattern with '?' and '[' wrapped as one-character sets is exact matching
-   for every pattern and name — no hypothesis.  (This also shows the GLOB
-   tokenizer never runs out of fuel on escaped patterns.) *)
-Theorem c40_fixed_glob_exact : forall p s,
-  sqlite_glob (glob_escape p) s = spec_glob p s.
-Proof. exact glob_escape_exact. Qed.
-
 (* ---------- non-vacuity ---------- *)
-(* pat_safe is satisfiable by a non-trivial '*' pattern that selects some rows
-   and rejects others: "ab*" against "ab1", "abx", "xab". *)
-Definition e_rows := [w_row [97; 98; 49]; w_row [120; 97; 98]; w_row [97; 98; 120]].
+(* a query with metacharacters in pattern and names: task "a_%*", cycle "1", flow 1
+   against "a_%1", "ax%1", "A_%1", "a_%" : only the first and the last match *)
+Definition e_rows := [w_row [97;95;37;49]; w_row [97;120;37;49]; w_row [65;95;37;49]; w_row [97;95;37]].
 Definition e_query : query :=
-  {| q_task := Some [97; 98; 42]; q_cycle := Some [49]; q_sel := Some s_succeeded;
+  {| q_task := Some [97; 95; 37; 42]; q_cycle := Some [49]; q_sel := Some s_succeeded;
      q_trigger := false; q_message := false; q_flow := Some 1 |}.
-Example c40_safe_example :
-  pat_safe (q_task e_query) (map r_name e_rows) /\
-  pat_safe (q_cycle e_query) (map r_cycle e_rows) /\
-  code_query e_query e_rows = Some [0; 2]%nat.
-Proof.
-  split; [|split; [|vm_compute; reflexivity]].
-  - split; [discriminate|]. intros _ s Hs. split.
-    + intros c Hc. cbn in Hc. unfold c_us, c_pct. intuition lia.
-    + intros a b Ha Hb. cbn in Ha, Hs.
-      destruct Hs as [<-|[<-|[<-|[]]]]; cbn in Hb;
-        intuition (subst; try reflexivity; vm_compute in *; try discriminate; try lia).
-  - split; [discriminate|]. intros H. vm_compute in H. discriminate.
-Qed.
+Example c40_exact_example :
+  pat_nonempty (q_task e_query) /\ pat_nonempty (q_cycle e_query) /\
+  code_query e_query e_rows = Some [0; 3]%nat /\
+  legacy_code_query e_query e_rows = Some [0; 1; 2; 3]%nat.
+Proof. repeat split; try discriminate; vm_compute; reflexivity. Qed.
 
 (* the LIKE model really treats '_', '%' as wildcards and ignores case *)
 Example c40_like_underscore : sqlite_like (translate w_pat) w_axb = true /\ spec_glob w_pat w_axb = false.
